@@ -141,8 +141,27 @@ def execute(case):
     }
 
 
+def generate_hub(r):
+    """A hub that toggles links to a few destinations many times: out-slot numbers grow past
+    16 (MultiCtl's mapping rows) and past 255 because freed slots are never reused."""
+    ops = []
+    hub_type = r.choice(["MultiCtl", "MultiCtl", None])
+    if hub_type:
+        ops.append({"k": "mod", "t": builder.TYPE_NAMES.index(hub_type)})
+    slotless = r.random() < 0.2
+    for _ in range(r.randint(1, 3)):
+        ops.append({"k": "hubscn", "hub": 1 if hub_type else r.randrange(100), "fan": r.choice([1, 2, 3, 6, 18]), "t": r.randrange(1000),
+                    "n": r.choice([30, 60, 300, 700]), "v": r.getrandbits(62)})
+        for _ in range(r.randint(0, 4)):
+            ops.append(builder.gen_link_op(r))
+        ops.append({"k": "save_load", "slotless": slotless})
+    return {"property": PROPERTY, "world": "links+restart", "ops": ops}
+
+
 def generate(seed, i, tier="quick"):
     r = seeds.rng(seed, "c08hist", i)
+    if r.random() < 0.06:
+        return generate_hub(r)
     ops = [{"k": "mod", "t": r.randrange(1000), "any": False} for _ in range(r.randint(1, 7))]
     slotless_run = r.random() < 0.3
     for _ in range(r.randint(1, 4)):
